@@ -39,8 +39,9 @@ type reqCtxOpt struct {
 }
 
 type reqCfg struct {
-	Opts  []reqCtxOpt // index 0 = the socket's default context
-	Steps []string
+	Opts    []reqCtxOpt // index 0 = the socket's default context
+	Steps   []string
+	Inherit bool // every context has the socket's options and gets them by inheritance: they are set on the socket only, before the contexts are opened
 }
 
 type reqScn struct {
@@ -336,6 +337,9 @@ func runReq(t *testing.T, cfg reqCfg) sim.Result {
 		c.ctxs = make([]mangos.Context, len(cfg.Opts))
 		c.pctxs = make([]protocol.Context, len(cfg.Opts))
 		c.hist = make([][]uint32, len(cfg.Opts))
+		if cfg.Inherit {
+			setCtxOpts(c.sock.SetOption, cfg.Opts[0])
+		}
 		for i := 1; i < len(cfg.Opts); i++ {
 			mc, err := c.sock.OpenContext()
 			if err != nil {
@@ -343,9 +347,13 @@ func runReq(t *testing.T, cfg reqCfg) sim.Result {
 			}
 			c.ctxs[i] = mc
 			c.pctxs[i] = rp.Ctxs[len(rp.Ctxs)-1]
-			setCtxOpts(c.ctxs[i].SetOption, cfg.Opts[i])
+			if !cfg.Inherit {
+				setCtxOpts(c.ctxs[i].SetOption, cfg.Opts[i])
+			}
 		}
-		setCtxOpts(c.sock.SetOption, cfg.Opts[0])
+		if !cfg.Inherit {
+			setCtxOpts(c.sock.SetOption, cfg.Opts[0])
+		}
 		var err error
 		if c.l, err = c.sock.NewListener(s.Net.Addr("l1"), nil); err != nil {
 			panic(err)
@@ -407,6 +415,10 @@ func reqScripted() []reqCfg {
 		{Opts: []reqCtxOpt{{Retry: 5 * sec, SendExp: 2 * sec, RecvExp: 3 * sec}}, Steps: []string{"send c0", "adv 1.999999s", "adv 1us", "conn", "send c0", "recv c0", "adv 2.999999s", "adv 1us", "recv c0", "adv 10s"}},
 		// best effort and fail-no-peers
 		{Opts: []reqCtxOpt{{Retry: 5 * sec, BestEffort: true}, {Retry: 5 * sec, FailNoPeers: true}}, Steps: []string{"send c0", "send c1", "recv c1", "conn", "recv c0", "send c1", "recv c1", "drop p1", "send c1", "adv 6s"}},
+		// contexts that inherit the socket's retry time, deadlines and modes behave like the socket's own context:
+		// retry on a silent peer, re-send when the connection goes, receive deadline
+		{Inherit: true, Opts: []reqCtxOpt{{Retry: 5 * sec, RecvExp: 30 * sec}, {Retry: 5 * sec, RecvExp: 30 * sec}}, Steps: []string{"conn", "send c1", "recv c1", "adv 4.999999s", "adv 1us", "conn", "drop p1", "reply p2 cur c1", "send c1", "recv c1", "adv 29.999999s", "adv 1us", "recv c1"}},
+		{Inherit: true, Opts: []reqCtxOpt{{Retry: 0, FailNoPeers: true}, {Retry: 0, FailNoPeers: true}}, Steps: []string{"send c1", "conn", "send c1", "recv c1", "drop p1", "recv c1", "adv 10s"}},
 		// context close with a pending receive; socket close with pending calls
 		{Opts: []reqCtxOpt{d, d}, Steps: []string{"conn", "send c1", "recv c1", "cclose c1", "send c1", "send c0", "recv c0"}},
 	}
@@ -428,6 +440,12 @@ func reqRandom(rng *rand.Rand) reqCfg {
 		o.BestEffort = rng.Intn(5) == 0
 		o.FailNoPeers = rng.Intn(5) == 0
 		c.Opts = append(c.Opts, o)
+	}
+	if rng.Intn(4) == 0 {
+		for i := range c.Opts {
+			c.Opts[i] = c.Opts[0]
+		}
+		c.Inherit = true
 	}
 	np := 0
 	n := 6 + rng.Intn(22)
